@@ -89,9 +89,12 @@ func VerifH_C11_FloatDecimal_N2() {
 // Kernel consistency: whenever the encoder's acceptance test (decimalsRestore) passes for
 // (mantissa, exponent, want), the decoder returns want (numerically equal; identical bits unless
 // want is a zero), for every int64 mantissa and every float64 want.
-// bound: one value; exponent in {-309,-23,-1,0,22,23}
+// bound: one value; exponent in {-23,-1,0,23} (thorough: also -400,-309,22,308)
 func VerifH_C11_FloatKernelAgree() {
-	exps := []int16{-309, -23, -1, 0, 22, 23}
+	exps := []int16{-23, -1, 0, 23}
+	if zzverif.Thorough() {
+		exps = []int16{-23, -1, 0, 23, -309, 22, -400, 308}
+	}
 	e := exps[zzverif.Choice("e", len(exps))]
 	m := zzverif.Int64("m")
 	want := zzverif.Float64("want")
